@@ -249,3 +249,567 @@ class ParseStepLimit(_Leaf):
             return [("C17.no-step-limit-means-none", z3.BoolVal(got is None))]
         return [("C18.step-limit-positive", S.extra["lim"] > 0),
                 ("C17.step-limit-kept", ival(got) == S.extra["lim"] if isinstance(got, (SymV, int)) else z3.BoolVal(False))]
+
+
+# ---- _is_valid_firewall_setting --------------------------------------------------------------------------------
+# a firewall rule value (subnet allow-list / host deny-list) of any length; the scenario's services are names 0..nSrv-1
+
+fw_name = z3.Function("doc_fw_name", I_, I_)
+
+
+def names_seq(n, label):
+    return SymSeq(n, lambda j: mk(ival(j), "name"), label)
+
+
+def fw_known(nSrv, k):
+    j = z3.Int("fw_kj")
+    return z3.ForAll([j], z3.Implies(z3.And(0 <= j, j < k), z3.And(0 <= fw_name(j), fw_name(j) < nSrv)))
+
+
+def fw_distinct_rows(n, k):
+    """entries with index < k differ from every other entry"""
+    a, b = z3.Int("fw_da"), z3.Int("fw_db")
+    return z3.ForAll([a, b], z3.Implies(z3.And(0 <= a, a < k, 0 <= b, b < n, a != b), fw_name(a) != fw_name(b)))
+
+
+@loop_contract
+class FwSettingKnownLoop(LoopContract):
+    qualname = LQ + "_is_valid_firewall_setting"
+    ordinal = 0
+    tags = ("C17", "C18")
+
+    def snapshot(self, I, fr, seq):
+        return {}
+
+    def havoc(self, I, fr, entry, seq):
+        fr.locals.pop("service", None)
+
+    def inv(self, I, fr, entry, seq, k):
+        return [("earlier-entries-are-services", fw_known(I.ext_state["fw_nSrv"], k))]
+
+
+@loop_contract
+class FwSettingDupOuter(LoopContract):
+    qualname = LQ + "_is_valid_firewall_setting"
+    ordinal = 1
+    tags = ("C17", "C18")
+
+    def snapshot(self, I, fr, seq):
+        return {}
+
+    def havoc(self, I, fr, entry, seq):
+        for v in ("i", "x", "j", "y"):
+            fr.locals.pop(v, None)
+
+    def inv(self, I, fr, entry, seq, k):
+        I.ext_state["fw_outer_k"] = k
+        return [("earlier-entries-unique", fw_distinct_rows(I.ext_state["fw_n"], k))]
+
+
+@loop_contract
+class FwSettingDupInner(LoopContract):
+    qualname = LQ + "_is_valid_firewall_setting"
+    ordinal = 2
+    tags = ("C17", "C18")
+
+    def snapshot(self, I, fr, seq):
+        return {"i": I.ext_state["fw_outer_k"]}
+
+    def havoc(self, I, fr, entry, seq):
+        for v in ("j", "y"):
+            fr.locals.pop(v, None)
+
+    def inv(self, I, fr, entry, seq, k):
+        i = entry["i"]
+        b = z3.Int("fw_ib")
+        return [("entry-differs-from-earlier-positions", z3.ForAll([b], z3.Implies(
+            z3.And(0 <= b, b < k, b != i), fw_name(i) != fw_name(b))))]
+
+
+@contract
+class IsValidFirewallSetting(Contract):
+    """result <=> the value is a list of known services without duplicates (any length)"""
+    qualname = LQ + "_is_valid_firewall_setting"
+    callable_by_contract = False
+    bounded = False
+    tags = {"": ("C17", "C18")}
+
+    def variants(self):
+        return ["list", "not-a-list"]
+
+    def setup(self, I, variant):
+        n, nSrv = z3.Int("doc_fw_len"), z3.Int("doc_nSrv")
+        I.ctx.assume(z3.And(n >= 0, nSrv >= 1))
+        I.ext_state.update(fw_n=n, fw_nSrv=nSrv)
+        if variant == "list":
+            f = SymSeq(n, lambda j: SymV(fw_name(ival(j)), "name"), "list")
+        else:
+            f = (SymV(z3.Int("doc_fw_a"), "name"), SymV(z3.Int("doc_fw_b"), "name"))     # e.g. a YAML tuple / scalar
+        lo = loader_obj(I, services=names_seq(nSrv, "services"))
+        S = Scope()
+        S.extra.update(variant=variant, n=n, nSrv=nSrv)
+        S.a = {"self": lo}
+        S.call_args = ([lo, f], {})
+        return S
+
+    def ensures(self, I, S):
+        n, nSrv = S.extra["n"], S.extra["nSrv"]
+        r = S.result
+        if S.extra["variant"] != "list":
+            return [("C18.firewall-rule-must-be-a-list", z3.BoolVal(r is False))]
+        spec = z3.And(fw_known(nSrv, n), fw_distinct_rows(n, n))
+        return [("C17.valid-rule-accepted", z3.Implies(spec, bval(r))),
+                ("C18.accepted-rule-is-list-of-distinct-services", z3.Implies(bval(r), spec))]
+
+
+# ---- _construct_host_config ------------------------------------------------------------------------------------
+# the three name -> bool dicts of a host, built by loops over the scenario's name lists (names 0..n-1 in list order):
+# domain = exactly the scenario's names, in list order; value = what the host configuration says
+
+from pyvc.values import SDict
+
+hc_srv = z3.Function("doc_host_service", I_, I_)        # the host's services list
+hc_proc = z3.Function("doc_host_process", I_, I_)
+
+
+def _hc_runs(which, x):
+    """does the host configuration list name x"""
+    if which == "os":
+        return x == z3.Int("doc_host_os")
+    f, n = (hc_srv, z3.Int("doc_n_host_srv")) if which == "services" else (hc_proc, z3.Int("doc_n_host_proc"))
+    j = z3.Int("hc_rj_" + which)
+    return z3.Exists([j], z3.And(0 <= j, j < n, f(j) == x))
+
+
+def hc_dict_spec(which, d, k):
+    """d holds exactly the first k names of the scenario list with the configured truth values"""
+    x = z3.Int("hc_x_" + which)
+    if isinstance(d, PyDict):
+        zero = z3.is_int_value(z3.simplify(k)) and z3.simplify(k).as_long() == 0
+        return [("dict-holds-the-first-names", z3.BoolVal(bool(zero and not d.d and not d.sym)))]
+    if not isinstance(d, SDict):
+        return [("dict-holds-the-first-names", z3.BoolVal(False))]
+    return [("keys-are-the-first-names", z3.ForAll([x], z3.Select(d.dom, x) == z3.And(0 <= x, x < k))),
+            ("values-are-the-configuration", z3.ForAll([x], z3.Implies(z3.And(0 <= x, x < k),
+                                                                        z3.Select(d.val, x) == _hc_runs(which, x))))]
+
+
+class _HcLoop(LoopContract):
+    qualname = LQ + "_construct_host_config"
+    tags = ("C17", "C09", "C01")
+    var, which, target = None, None, None
+
+    def snapshot(self, I, fr, seq):
+        return {}
+
+    def havoc(self, I, fr, entry, seq):
+        A = z3.ArraySort
+        # ghost iteration order: the names are inserted in list order and are pairwise distinct (checked by
+        # _validate_os / _validate_services / _validate_processes), so the dict iterates in list order
+        fr.locals[self.var] = SDict(1, "bool", I.ctx.fresh(self.var + "_dom", A(I_, B_)), I.ctx.fresh(self.var + "_val", A(I_, B_)),
+                                    keyseq=SymSeq(seq.n, seq.elem, self.var + ".keys"), fresh=True, label=self.var)
+        fr.locals.pop(self.target, None)
+
+    def inv(self, I, fr, entry, seq, k):
+        return hc_dict_spec(self.which, fr.locals[self.var], k)
+
+
+@loop_contract
+class HcOsLoop(_HcLoop):
+    ordinal = 0
+    var, which, target = "os_cfg", "os", "os_name"
+
+
+@loop_contract
+class HcSrvLoop(_HcLoop):
+    ordinal = 1
+    var, which, target = "services_cfg", "services", "service"
+
+
+@loop_contract
+class HcProcLoop(_HcLoop):
+    ordinal = 2
+    var, which, target = "processes_cfg", "processes", "process"
+
+
+@contract
+class ConstructHostConfig(Contract):
+    """the OS / service / process maps of a host: keys = the scenario's name lists in list order (what
+    HostVector.vectorize and HostVector._initialize rely on), value = the host configuration's content"""
+    qualname = LQ + "_construct_host_config"
+    callable_by_contract = False
+    bounded = False
+    tags = {"": ("C17", "C09", "C01")}
+
+    def setup(self, I, variant):
+        nOS, nSrv, nProc = z3.Int("doc_nOS"), z3.Int("doc_nSrv"), z3.Int("doc_nProc")
+        ms, mp = z3.Int("doc_n_host_srv"), z3.Int("doc_n_host_proc")
+        I.ctx.assume(z3.And(nOS >= 1, nSrv >= 1, nProc >= 1, ms >= 0, mp >= 0))
+        cfg = PyDict({"os": SymV(z3.Int("doc_host_os"), "name"),
+                      "services": SymSeq(ms, lambda j: SymV(hc_srv(ival(j)), "name"), "list"),
+                      "processes": SymSeq(mp, lambda j: SymV(hc_proc(ival(j)), "name"), "list")}, fresh=False)
+        lo = loader_obj(I, os=names_seq(nOS, "os"), services=names_seq(nSrv, "services"),
+                        processes=names_seq(nProc, "processes"))
+        S = Scope()
+        S.extra.update(n={"os": nOS, "services": nSrv, "processes": nProc})
+        S.a = {"self": lo}
+        S.call_args = ([lo, cfg], {})
+        return S
+
+    def ensures(self, I, S):
+        r = S.result
+        ok = isinstance(r, tuple) and len(r) == 3 and all(isinstance(d, SDict) for d in r)
+        out = [("C17.three-config-maps", z3.BoolVal(ok))]
+        if not ok:
+            return out
+        for which, d in zip(("os", "services", "processes"), r):
+            n = S.extra["n"][which]
+            for l, t in hc_dict_spec(which, d, n):
+                out.append((f"C17.host-{which}-map.{l}", t))
+            ks = d.keyseq
+            j = z3.Int("hc_kj")
+            out.append((f"C09.host-{which}-map.keys-in-scenario-list-order", z3.And(
+                ival(ks.n) == n, z3.ForAll([j], z3.Implies(z3.And(0 <= j, j < n), nameval(ks.elem(j)) == j)))
+                if ks is not None else z3.BoolVal(False)))
+        return out
+
+
+# ---- _get_host_value -------------------------------------------------------------------------------------------
+
+@contract
+class GetHostValue(Contract):
+    """value of a host: the sensitive_hosts entry if the address is listed there, else the configuration's `value`,
+    else the documented default 0"""
+    qualname = LQ + "_get_host_value"
+    callable_by_contract = False
+    bounded = False
+    tags = {"": ("C17",)}
+
+    def variants(self):
+        return ["config-has-value", "config-without-value"]
+
+    def setup(self, I, variant):
+        from pyvc.values import SymDict
+        sens = z3.Function("doc_is_sensitive", I_, I_, B_)
+        sval = z3.Function("doc_sensitive_value", I_, I_, R_)
+        a, b, v = z3.Int("doc_addr_s"), z3.Int("doc_addr_h"), z3.Real("doc_cfg_value")
+        sh = SymDict(lambda k: sens(ival(k[0]), ival(k[1])), lambda k: mk(sval(ival(k[0]), ival(k[1])), "real"),
+                     label="sensitive_hosts")
+        cfg = PyDict({"os": SymV(z3.Int("doc_host_os"), "name")} | ({"value": SymV(v, "real")} if variant == "config-has-value" else {}),
+                     fresh=False)
+        lo = loader_obj(I, sensitive_hosts=sh)
+        S = Scope()
+        S.extra.update(sens=sens(a, b), sval=sval(a, b), v=v, has=variant == "config-has-value")
+        S.a = {"self": lo}
+        S.call_args = ([lo, (SymV(a, "int"), SymV(b, "int")), cfg], {})
+        return S
+
+    def ensures(self, I, S):
+        e = S.extra
+        want = z3.If(e["sens"], e["sval"], e["v"] if e["has"] else z3.RealVal(0))
+        return [("C17.host-value", rval(S.result) == want)]
+
+
+# ---- address-keyed sections: _has_all_host_addresses / _contains_all_required_firewalls / _validate_host_address --
+# keys of the document are strings; str((a, b)) / eval(key) follow the ASSUMED address-string contract of
+# pyvc.builtins (ADDR_STR canonical and inverted by eval; eval a pure function of the string)
+
+from pyvc.values import SymColl
+
+doc_size = z3.Function("doc_subnet_size", I_, I_)          # self.subnets (index 0 = internet)
+doc_topo = z3.Function("doc_topology", I_, I_, I_)
+has_key = z3.Function("doc_has_key", I_, B_)               # the section has this (string) key
+
+
+def subnets_seq(nS):
+    return SymSeq(nS, lambda j: SymV(doc_size(ival(j)), "int"), "list")
+
+
+def keys_coll():
+    return SymColl(lambda x: has_key(nameval(x)), "document-keys")
+
+
+def hosts_covered(k, upto=None):
+    """every address (s, m) with 1 <= s < k (and, for s == k if upto is given, m < upto) is a key"""
+    s, m = z3.Int("ha_s"), z3.Int("ha_m")
+    rng = z3.And(1 <= s, s < k, 0 <= m, m < doc_size(s))
+    if upto is not None:
+        rng = z3.Or(rng, z3.And(s == k, 0 <= m, m < upto))
+    return z3.ForAll([s, m], z3.Implies(rng, has_key(B.ADDR_STR(s, m))))
+
+
+@loop_contract
+class HasAllAddrSubnets(LoopContract):
+    qualname = LQ + "_has_all_host_addresses"
+    ordinal = 0
+    tags = ("C17", "C18")
+
+    def snapshot(self, I, fr, seq):
+        return {}
+
+    def havoc(self, I, fr, entry, seq):
+        for v in ("s_id", "s_size", "m"):
+            fr.locals.pop(v, None)
+
+    def inv(self, I, fr, entry, seq, k):
+        I.ext_state["ha_k"] = k
+        return [("earlier-subnets-covered", hosts_covered(k + 1))]
+
+
+@loop_contract
+class HasAllAddrHosts(LoopContract):
+    qualname = LQ + "_has_all_host_addresses"
+    ordinal = 1
+    tags = ("C17", "C18")
+
+    def snapshot(self, I, fr, seq):
+        return {"k": I.ext_state["ha_k"]}
+
+    def havoc(self, I, fr, entry, seq):
+        fr.locals.pop("m", None)
+
+    def inv(self, I, fr, entry, seq, k):
+        return [("earlier-hosts-covered", hosts_covered(entry["k"] + 1, upto=k))]
+
+
+@contract
+class HasAllHostAddresses(Contract):
+    """result <=> every address of the network is a key of the host-configuration section (any number of subnets/hosts)"""
+    qualname = LQ + "_has_all_host_addresses"
+    callable_by_contract = False
+    bounded = False
+    tags = {"": ("C17", "C18")}
+
+    def setup(self, I, variant):
+        nS = z3.Int("doc_nS")
+        j = z3.Int("hs_j")
+        I.ctx.assume(z3.And(nS >= 2, z3.ForAll([j], doc_size(j) >= 0)))
+        B.addr_axioms(I)
+        lo = loader_obj(I, subnets=subnets_seq(nS))
+        S = Scope()
+        S.extra.update(nS=nS)
+        S.a = {"self": lo}
+        S.call_args = ([lo, keys_coll()], {})
+        return S
+
+    def ensures(self, I, S):
+        spec = hosts_covered(S.extra["nS"])
+        return [("C17.complete-section-accepted", z3.Implies(spec, bval(S.result))),
+                ("C18.accepted-section-has-every-address", z3.Implies(bval(S.result), spec))]
+
+
+def fw_pairs_covered(nS, k, upto=None):
+    a, b = z3.Int("fwc_a"), z3.Int("fwc_b")
+    rng = z3.And(0 <= a, a < k, 0 <= b, b < nS)
+    if upto is not None:
+        rng = z3.Or(rng, z3.And(a == k, 0 <= b, b < upto))
+    return z3.ForAll([a, b], z3.Implies(z3.And(rng, a != b, doc_topo(a, b) == 1),
+                                        z3.And(has_key(B.ADDR_STR(a, b)), has_key(B.ADDR_STR(b, a)))))
+
+
+@loop_contract
+class RequiredFwRows(LoopContract):
+    qualname = LQ + "_contains_all_required_firewalls"
+    ordinal = 0
+    tags = ("C17", "C18")
+
+    def snapshot(self, I, fr, seq):
+        return {}
+
+    def havoc(self, I, fr, entry, seq):
+        for v in ("src", "row", "dest", "col"):
+            fr.locals.pop(v, None)
+
+    def inv(self, I, fr, entry, seq, k):
+        I.ext_state["fwc_k"] = k
+        return [("earlier-rows-covered", fw_pairs_covered(I.ext_state["fwc_nS"], k))]
+
+
+@loop_contract
+class RequiredFwCols(LoopContract):
+    qualname = LQ + "_contains_all_required_firewalls"
+    ordinal = 1
+    tags = ("C17", "C18")
+
+    def snapshot(self, I, fr, seq):
+        return {"k": I.ext_state["fwc_k"]}
+
+    def havoc(self, I, fr, entry, seq):
+        for v in ("dest", "col"):
+            fr.locals.pop(v, None)
+
+    def inv(self, I, fr, entry, seq, k):
+        return [("earlier-columns-covered", fw_pairs_covered(I.ext_state["fwc_nS"], entry["k"], upto=k))]
+
+
+@contract
+class ContainsAllRequiredFirewalls(Contract):
+    """result <=> the firewall section has a rule in both directions for every connected ordered pair of distinct
+    subnets (internet included), for a topology of any size"""
+    qualname = LQ + "_contains_all_required_firewalls"
+    callable_by_contract = False
+    bounded = False
+    tags = {"": ("C17", "C18")}
+
+    def setup(self, I, variant):
+        nS = z3.Int("doc_nS")
+        I.ctx.assume(nS >= 2)
+        I.ext_state["fwc_nS"] = nS
+        B.addr_axioms(I)
+        topo = SymSeq(nS, lambda r: SymSeq(nS, lambda c, r=r: SymV(doc_topo(ival(r), ival(c)), "int"), "list"), "list")
+        lo = loader_obj(I, topology=topo)
+        S = Scope()
+        S.extra.update(nS=nS)
+        S.a = {"self": lo}
+        S.call_args = ([lo, keys_coll()], {})
+        return S
+
+    def ensures(self, I, S):
+        nS = S.extra["nS"]
+        spec = fw_pairs_covered(nS, nS)
+        return [("C17.complete-firewall-accepted", z3.Implies(spec, bval(S.result))),
+                ("C18.accepted-firewall-covers-every-connection", z3.Implies(bval(S.result), spec))]
+
+
+@contract
+class ValidateHostAddress(_Leaf):
+    """host-firewall key: accepted iff it evaluates to a pair of ints that is an address of the network"""
+    qualname = LQ + "_validate_host_address"
+
+    def setup(self, I, variant):
+        nS, key = z3.Int("doc_nS"), z3.Int("doc_key")
+        j = z3.Int("hs_j")
+        I.ctx.assume(z3.And(nS >= 2, z3.ForAll([j], doc_size(j) >= 0)))
+        B.addr_axioms(I)
+        a, b = B.EV_A(key), B.EV_B(key)
+        is_int = lambda t: z3.Or(t == B.TAG_INT, t == B.TAG_BOOL)
+        valid = z3.And(B.EV_PAIR(key), is_int(B.EV_TA(key)), is_int(B.EV_TB(key)), 0 < a, a < nS, 0 <= b, b < doc_size(a))
+        if variant == "valid":
+            I.ctx.assume(valid)
+        lo = loader_obj(I, subnets=subnets_seq(nS))
+        S = Scope()
+        S.extra.update(variant=variant, valid=valid)
+        S.a = {"self": lo}
+        S.call_args = ([lo, SymV(key, "name")], {"err_prefix": "Host"})
+        return S
+
+    def ensures(self, I, S):
+        return [("C18.accepted-key-is-an-address-of-the-network", S.extra["valid"]),
+                ("C17.returns-true", z3.BoolVal(S.result is True))]
+
+
+# ---- _validate_sensitive_hosts ---------------------------------------------------------------------------------
+
+sh_key = z3.Function("doc_sens_key", I_, I_)               # j-th key (a string) of the sensitive_hosts section
+sh_val = z3.Function("doc_sens_value", I_, R_)             # value stored under a key (by key code)
+sh_vtag = z3.Function("doc_sens_value_type", I_, I_)
+
+
+def sh_entry_ok(nS, j):
+    k = sh_key(j)
+    a, b = B.EV_A(k), B.EV_B(k)
+    num = z3.Or(sh_vtag(k) == B.TAG_INT, sh_vtag(k) == B.TAG_BOOL, sh_vtag(k) == B.TAG_FLOAT)
+    return z3.And(B.EV_PAIR(k), B.EV_TA(k) == B.TAG_INT, B.EV_TB(k) == B.TAG_INT, 1 <= a, a < nS, 0 <= b, b < doc_size(a),
+                  num, sh_val(k) > 0)
+
+
+def sh_entries_ok(nS, k):
+    j = z3.Int("sh_ej")
+    return z3.ForAll([j], z3.Implies(z3.And(0 <= j, j < k), sh_entry_ok(nS, j)))
+
+
+def sh_differs(a, b):
+    ka, kb = sh_key(a), sh_key(b)
+    return z3.Or(B.EV_A(ka) != B.EV_A(kb), B.EV_B(ka) != B.EV_B(kb))
+
+
+def sh_unique(n, k):
+    a, b = z3.Int("sh_ua"), z3.Int("sh_ub")
+    return z3.ForAll([a, b], z3.Implies(z3.And(0 <= a, a < k, 0 <= b, b < n, a != b), sh_differs(a, b)))
+
+
+@loop_contract
+class SensEntriesLoop(LoopContract):
+    qualname = LQ + "_validate_sensitive_hosts"
+    ordinal = 0
+    tags = ("C17", "C18")
+
+    def snapshot(self, I, fr, seq):
+        return {}
+
+    def havoc(self, I, fr, entry, seq):
+        for v in ("address", "value", "subnet_id", "host_id"):
+            fr.locals.pop(v, None)
+
+    def inv(self, I, fr, entry, seq, k):
+        return [("earlier-entries-valid", sh_entries_ok(I.ext_state["sh_nS"], k))]
+
+
+@loop_contract
+class SensDupOuter(LoopContract):
+    qualname = LQ + "_validate_sensitive_hosts"
+    ordinal = 1
+    tags = ("C17", "C18")
+
+    def snapshot(self, I, fr, seq):
+        return {}
+
+    def havoc(self, I, fr, entry, seq):
+        for v in ("i", "m", "h1_addr", "j", "n", "h2_addr"):
+            fr.locals.pop(v, None)
+
+    def inv(self, I, fr, entry, seq, k):
+        I.ext_state["sh_outer_k"] = k
+        return [("earlier-addresses-unique", sh_unique(I.ext_state["sh_n"], k))]
+
+
+@loop_contract
+class SensDupInner(LoopContract):
+    qualname = LQ + "_validate_sensitive_hosts"
+    ordinal = 2
+    tags = ("C17", "C18")
+
+    def snapshot(self, I, fr, seq):
+        return {"i": I.ext_state["sh_outer_k"]}
+
+    def havoc(self, I, fr, entry, seq):
+        for v in ("j", "n", "h2_addr"):
+            fr.locals.pop(v, None)
+
+    def inv(self, I, fr, entry, seq, k):
+        i = entry["i"]
+        b = z3.Int("sh_ib")
+        return [("address-differs-from-earlier-positions", z3.ForAll([b], z3.Implies(
+            z3.And(0 <= b, b < k, b != i), sh_differs(i, b))))]
+
+
+@contract
+class ValidateSensitiveHosts(_Leaf):
+    """sensitive_hosts section with any number of entries: accepted iff non-empty, not more entries than hosts, every
+    key a valid address, every value a positive number, no address twice"""
+    qualname = LQ + "_validate_sensitive_hosts"
+
+    def setup(self, I, variant):
+        from pyvc.values import SymDict
+        nS, n, nh = z3.Int("doc_nS"), z3.Int("doc_n_sensitive"), z3.Int("doc_num_hosts")
+        j, i2 = z3.Int("hs_j"), z3.Int("hs_i")
+        I.ctx.assume(z3.And(nS >= 2, n >= 0, nh >= 1, z3.ForAll([j], doc_size(j) >= 0)))
+        # keys of a dict are pairwise different strings
+        I.ctx.assume(z3.ForAll([j, i2], z3.Implies(z3.And(0 <= j, j < i2, i2 < n), sh_key(j) != sh_key(i2))))
+        B.addr_axioms(I)
+        I.ext_state.update(sh_nS=nS, sh_n=n)
+        keys = SymSeq(n, lambda q: SymV(sh_key(ival(q)), "name"), "sensitive_hosts.keys")
+        sh = SymDict(lambda k: z3.BoolVal(True), lambda k: SymV(sh_val(nameval(k)), "real", pytag=sh_vtag(nameval(k))),
+                     keys=keys, label="sensitive_hosts")
+        spec = z3.And(n >= 1, n <= nh, sh_entries_ok(nS, n), sh_unique(n, n))
+        if variant == "valid":
+            I.ctx.assume(spec)
+        lo = loader_obj(I, subnets=subnets_seq(nS), num_hosts=SymV(nh, "int"))
+        S = Scope()
+        S.extra.update(variant=variant, spec=spec)
+        S.a = {"self": lo}
+        S.call_args = ([lo, sh], {})
+        return S
+
+    def ensures(self, I, S):
+        return [("C18.accepted-sensitive-hosts-are-valid-unique-positive", S.extra["spec"])]
